@@ -1,3 +1,4 @@
+import ast
 from collections import defaultdict
 from outsourcer import Code
 from .constants import POS, RESULT, STATUS, TEXT
@@ -6,6 +7,9 @@ from .constants import POS, RESULT, STATUS, TEXT
 class Expression:
     defines_local = False
     has_params = False
+
+    # The local names that this expression mentions in Python code.
+    local_names = ()
 
     is_commented = True
     is_reference = False
@@ -18,6 +22,10 @@ class Expression:
         # By default, assume that if you don't always succeed, then you can
         # partially succeed.
         return not self.always_succeeds()
+
+    def mentioned_names(self):
+        # The identifiers that this expression itself mentions in Python code.
+        return ()
 
     def precompile(self, out):
         pass
@@ -102,6 +110,8 @@ class SymbolCounter:
     def __init__(self):
         self.freevars = set()
         self._counts = defaultdict(int)
+        self._fields = defaultdict(int)
+        self._members = set()
 
     def previsit(self, node):
         if node.defines_local:
@@ -115,11 +125,24 @@ class SymbolCounter:
             self.freevars.add(node.name)
 
         # Inline Python may mention local names, too.
-        for name in getattr(node, 'local_names', ()):
-            if not self.is_bound(name):
+        for name in node.local_names:
+            if not self.is_visible(name):
                 self.freevars.add(name)
 
+        # The named members of a class are visible to the members after them.
+        if hasattr(node, 'members'):
+            self._members.update(id(x) for x in node.members)
+
     def postvisit(self, node):
+        if id(node) in self._members and node.name:
+            self._fields[node.name] += 1
+
+        if hasattr(node, 'members'):
+            for member in node.members:
+                self._members.discard(id(member))
+                if member.name:
+                    self._fields[member.name] -= 1
+
         if node.defines_local:
             self._counts[node.name] -= 1
 
@@ -129,3 +152,16 @@ class SymbolCounter:
 
     def is_bound(self, name):
         return self._counts[name] > 0
+
+    def is_visible(self, name):
+        # Bound by let or as a parameter, or an earlier field of the class.
+        return self._counts[name] > 0 or self._fields[name] > 0
+
+
+def python_names(source_code):
+    # The identifiers that a Python expression mentions.
+    try:
+        tree = ast.parse(str(source_code).strip(), mode='eval')
+    except SyntaxError:
+        return set()
+    return {x.id for x in ast.walk(tree) if isinstance(x, ast.Name)}
